@@ -1,3 +1,4 @@
+-- NOTE (round 7): 1.22 for k <= 8 and outside a band of item sizes is proved in MultiFit122.lean / MultiFit122B.lean.
 /-
   PrtpyProofs.MaxMin2 — property C08, continued (see PrtpyProofs.MaxMin).
 -/
